@@ -2,7 +2,7 @@
    gives exit 0 with empty reports -- for every well-formed tree, format set, pattern list, matcher and primitive. *)
 From Coq Require Import Lia Permutation.
 From MHL Require Import Model.Commands Gen.Generated Proofs.BaseFacts Proofs.SealFacts Proofs.TreeFacts Proofs.RouteFacts
-     Proofs.CommitFacts Proofs.LoadFacts Proofs.IgnoreFacts Proofs.VerifyFacts Proofs.CreateFacts.
+     Proofs.CommitFacts Proofs.LoadFacts Proofs.IgnoreFacts Proofs.VerifyFacts Proofs.CreateFacts Proofs.HistFacts.
 
 Section Fresh.
   Variable Hb : fmt -> bytes -> bytes.
@@ -386,3 +386,60 @@ Section FreshMain.
       rewrite Hdiff. reflexivity.
   Qed.
 End FreshMain.
+
+(* ---- C06 / C12 end to end for a flat history with any number of prior generations ---- *)
+Section FlatAppend.
+  Variable Hb : fmt -> bytes -> bytes.
+  Variable matches : list text -> text -> bool.
+  Variable C : Type.
+  Variable cdig : C -> text.
+  Variable ser : gen -> C.
+
+  (* create on a tree whose only history is the root's, that history being well-formed with n generations: afterwards
+     the history is `after_commit old doc` -- all n manifests kept, one added with number n+1, the chain extended by
+     exactly one matching entry -- and well-formed with n+1 generations *)
+  Theorem create_flat_appends old kids h0 n req no_dh ip ifl :
+    load C cdig (Dir (Some old) kids) = inl [h0] -> HistFacts.wellformed C cdig n old -> req <> [] ->
+    let run := create_folder Hb matches C cdig ser (Dir (Some old) kids) req no_dh false ip ifl in
+    o_outcome (snd run) <> Abort ->
+    exists doc, o_written (snd run) = [([], doc)] /\ g_no doc = N.of_nat (S n) /\
+      fst run = Dir (Some (HistFacts.after_commit C cdig ser old doc)) kids /\
+      HistFacts.wellformed C cdig (S n) (HistFacts.after_commit C cdig ser old doc) /\
+      (exists new, h_files C (HistFacts.after_commit C cdig ser old doc) = h_files C old ++ [new]).
+  Proof.
+    intros Hl Hw Hreq. cbn zeta. intros Hout.
+    pose proof Hl as Hl0. rewrite load_dir in Hl0.
+    destruct (check_chain C cdig old); [discriminate|].
+    destruct (combine_results (sort name_leb (kid_results C cdig [] [] kids))) as [below|e] eqn:Ec; [|discriminate].
+    assert (Hb0 : below = [] /\ h0 = lhist_of C [] None (Some old)).
+    { destruct below as [|b0 b1]; cbn in Hl0; [injection Hl0 as <-; auto|]. injection Hl0 as _ H. destruct b1; discriminate. }
+    destruct Hb0 as [-> Eh0]. clear Hl0.
+    assert (h0_root : lh_root h0 = []) by (rewrite Eh0; reflexivity).
+    assert (h0_parent : lh_parent h0 = None) by (rewrite Eh0; reflexivity).
+    destruct (create_flat_shape Hb matches C cdig ser h0 h0_root h0_parent (Dir (Some old) kids) req no_dh ip ifl Hl eq_refl Hreq Hout)
+      as [sess [recs0 [_ [_ [Hw' Ht]]]]].
+    set (doc := new_doc InPlace (sess_list sess []) recs0 (set_patterns (latest_patterns (lh_gens h0)) ip (pattern_file_lines ifl)) [] h0) in *.
+    assert (Hno : g_no doc = (latest_generation_number (loaded_gens C old) + 1)%N) by (unfold doc; rewrite Eh0; reflexivity).
+    destruct (HistFacts.commit_appends C cdig ser n old doc Hw Hno) as [Hn [Hfiles [_ Hwf]]].
+    exists doc. split; [exact Hw'|]. split; [exact Hn|]. split; [|split; [exact Hwf|]].
+    - rewrite Ht. rewrite Eh0. reflexivity.
+    - destruct Hfiles as [new [Hf _]]. exists new. exact Hf.
+  Qed.
+
+  (* C12 end to end (flat history): nothing that the effective patterns exclude -- neither an ignored entry nor anything
+     below an ignored folder -- gets a record in the new generation *)
+  Theorem create_flat_records_visible (t : node C) h0 req no_dh ip ifl :
+    load C cdig t = inl [h0] -> is_dir C t = true -> req <> [] ->
+    let spec := set_patterns (latest_patterns (lh_gens h0)) ip (pattern_file_lines ifl) in
+    let o := snd (create_folder Hb matches C cdig ser t req no_dh false ip ifl) in
+    o_outcome o <> Abort ->
+    forall h doc r, In (h, doc) (o_written o) -> In r (g_records doc) -> visible matches spec [] (r_path r).
+  Proof.
+    intros Hl Hd Hreq. cbn zeta. intros Hout h doc r Hin Hr.
+    destruct (create_flat_records_exact Hb matches C cdig ser t h0 req no_dh ip ifl Hl Hd Hreq Hout) as [doc0 [Hw [_ Hiff]]].
+    rewrite Hw in Hin. destruct Hin as [E|[]]. injection E as _ <-.
+    assert (Hq : In (r_path r) (map fst (entries matches C (set_patterns (latest_patterns (lh_gens h0)) ip (pattern_file_lines ifl)) [] t))).
+    { apply Hiff. apply in_map. exact Hr. }
+    apply in_map_iff in Hq. destruct Hq as [[q d] [Hq1 Hq2]]. cbn in Hq1. subst q. eapply entries_visible. exact Hq2.
+  Qed.
+End FlatAppend.
